@@ -45,7 +45,8 @@ def hash_eq_term(ex, a, b):
 
 def _strong_compute(ex, st, args, dest_ty, func, where):
     s = seq_of(ex, st, args[0])
-    ex.oblig("model-bound", where, "ideal hash: input longer than the model capacity", z3.And(st.guard, s.len > ex.hash_cap))
+    if not getattr(ex, "big_views", False):
+        ex.oblig("model-bound", where, "ideal hash: input longer than the model capacity", z3.And(st.guard, s.len > ex.hash_cap))
     return hash_of(s)
 
 
@@ -58,8 +59,13 @@ def _strong_eq(ex, st, args, dest_ty, func, where):
 # ----------------------------------------------------------------- weak hash D (uninterpreted)
 
 def weak_D(ex, seq):
-    """D(len, b0..b_{W-1}) with W = ex.window_cap; positions >= len are padded with 0"""
+    """D(len, b0..b_{W-1}) with W = ex.window_cap; positions >= len are padded with 0.
+    Windows longer than W (large-input obligations) use D2(array, offset, len): the digest of a *view*, which is
+    weaker (it does not say that equal contents at different places agree) and only used where views are compared."""
     W = ex.window_cap
+    ln = simp(seq.len)
+    if z3.is_int_value(ln) and ln.as_long() > W:
+        return simp(ex.D2(seq.arr, simp(seq.off), ln))
     args = [seq.len]
     for k in range(W):
         args.append(z3.If(k < seq.len, seq.at(I(k)), I(0)))
@@ -68,7 +74,8 @@ def weak_D(ex, seq):
 
 def _rc_new(ex, st, args, dest_ty, func, where):
     s = seq_of(ex, st, args[0])
-    ex.oblig("model-bound", where, "window longer than the model capacity", z3.And(st.guard, s.len > ex.window_cap))
+    if not z3.is_int_value(simp(s.len)):
+        ex.oblig("model-bound", where, "window longer than the model capacity", z3.And(st.guard, s.len > ex.window_cap))
     return VStruct("RollingChecksum#contract", [VSeq(s.arr, s.off, s.len, "u8")])
 
 
@@ -611,6 +618,7 @@ def install(ex, window_cap, byte_cap, cand_cap):
         ex.D_apps.append((args, t))
         return t
     ex.D = D
+    ex.D2 = z3.Function("D2", z3.ArraySort(z3.IntSort(), z3.IntSort()), z3.IntSort(), z3.IntSort(), z3.IntSort())
     ex.tolerate_rawbox = True
     M = []
 
@@ -647,7 +655,8 @@ def install(ex, window_cap, byte_cap, cand_cap):
     A(r"^core::slice::<impl \[(DeltaOp|BlockSignature|usize)\]>::iter$", _slice_iter_any, "<[T]>::iter")
     A(r"^<std::slice::Iter<'_, (DeltaOp|BlockSignature)> as Iterator>::enumerate$|^<std::slice::Chunks<'_, u8> as Iterator>::enumerate$", _enumerate_any, "Iterator::enumerate")
     A(r"^<std::iter::Enumerate<std::slice::Iter<'_, (BlockSignature|DeltaOp)>> as Iterator>::next$", _enumerate_next_any, "Enumerate<slice::Iter<record>>::next")
-    A(r"^core::slice::<impl \[u8\]>::chunks$", _chunks, "<[u8]>::chunks (concrete length)")
+    A(r"^core::slice::<impl \[u8\]>::chunks$|^<\[u8\] as rayon::prelude::ParallelSlice<u8>>::par_chunks$|^<\[u8\] as rayon::slice::ParallelSlice<u8>>::par_chunks$",
+      _chunks, "<[u8]>::chunks / rayon par_chunks (concrete length; rayon = same elements in the same order)")
     A(r" as Iterator>::map::<", _map, "Iterator::map (lazy)")
     A(r" as Iterator>::filter_map::<", _filter_map, "Iterator::filter_map (lazy)")
     A(r" as Iterator>::collect::<Vec<BlockSignature>>$", _collect_vec, "Map<Enumerate<Chunks>>::collect::<Vec<_>>")
